@@ -177,6 +177,17 @@ def strong_base(draw, lo=1, hi=4, max_conds=6, consts=True, unfals=False):
 
 
 @st.composite
+def layered_base(draw, lo=2, hi=4, max_conds=6, consts=False):
+    """strongly consistent base that always contains an exception chain (>= 2 layers likely)"""
+    atoms = draw(atoms_st(max(2, lo), hi))
+    conds = draw(exception_chain(atoms))
+    for _ in range(draw(st.integers(0, max(0, max_conds - len(conds))))):
+        conds.append(draw(conditional(atoms, consts=consts)))
+    conds = list(draw(st.permutations(conds)))
+    return atoms, repair_strong(atoms, conds)
+
+
+@st.composite
 def weak_base(draw, lo=1, hi=4, max_conds=6, consts=True):
     """weakly consistent base: finite part + infinity-layer material"""
     atoms = draw(atoms_st(lo, hi))
